@@ -53,7 +53,8 @@ var srcUnits = []srcUnit{
 	{dir: ".", path: modPath, lean: "Lib", pre: "lib",
 		funcs: []string{"GetTotalSeconds", "GetFloatHour", "FloatHourToHMS", "toUint8", "HMS.IsValid", "Date.IsValid"}},
 	{dir: "interval", path: modPath + "/interval", lean: "Interval", pre: "interval",
-		funcs: []string{"Less", "GetPointList", "GetIntervalList", "Normalize", "Humanize", "Extract", "IntervalListByNumList"}},
+		funcs: []string{"Less", "GetPointList", "GetIntervalList", "Normalize", "Humanize", "Extract", "IntervalListByNumList",
+			"intersectionOfSomeIntervalLists_endPoint", "IntersectionOfSomeIntervalLists", "Intersection"}},
 	{dir: "utils/stack", path: modPath + "/utils/stack", lean: "Stack", pre: "stack",
 		funcs: []string{"Push", "Pop"}},
 	{dir: "cal_types/julian", path: modPath + "/cal_types/julian", lean: "Julian", pre: "julian",
@@ -113,7 +114,26 @@ func ownStruct(n *types.Named, pre string) (string, bool) {
 		case isBool(f.Type()):
 			fields = append(fields, "  "+f.Name()+" : Bool")
 		default:
-			return "", false
+			// a slice of integers, or of (pointers to) another structure of the same package
+			sl, ok := f.Type().Underlying().(*types.Slice)
+			if !ok {
+				return "", false
+			}
+			el := sl.Elem()
+			if pe, ok := el.(*types.Pointer); ok {
+				el = pe.Elem()
+			}
+			if isInt(el) {
+				fields = append(fields, "  "+f.Name()+" : List Int")
+			} else if en, ok := el.(*types.Named); ok && en.Obj().Pkg() == n.Obj().Pkg() && en != n {
+				es, ok := ownStruct(en, pre)
+				if !ok {
+					return "", false
+				}
+				fields = append(fields, "  "+f.Name()+" : List "+es)
+			} else {
+				return "", false
+			}
 		}
 	}
 	srcOwnStructs[q] = "structure " + name + " where\n" + strings.Join(fields, "\n") + "\nderiving DecidableEq, Repr\n"
@@ -289,22 +309,47 @@ func loadSrcPkg(u srcUnit) (*srcPkg, error) {
 // ---- translation of one function ---------------------------------------------------------------
 
 type fnTrans struct {
-	sp      *srcPkg
-	all     map[string]*srcPkg // import path -> package
-	names   map[types.Object]string
-	used    map[string]int
-	globals map[types.Object]bool // package scalars read (become parameters)
-	calls   map[string]bool       // Lean names of translated functions called
-	tmp     int
-	inRange bool // translating the body of a `for _, v := range` loop: `return e` is `pure (some e)`
-	chk     bool // the overflow-checked copy: every int / int64 addition, subtraction, multiplication, negation is GoSem.chk64
-	inFold  string // translating the body of a range loop with state: the state pattern (`continue` / falling off the end is `pure (Flow.next pat)`, `return e` is `pure (Flow.ret e)`)
-	errRes  bool   // the function returns (T, error): the Lean result is `Option T` inside the panic monad, `none` = an error was returned
-	resType string // Lean type of the function's result
+	sp        *srcPkg
+	all       map[string]*srcPkg // import path -> package
+	names     map[types.Object]string
+	used      map[string]int
+	globals   map[types.Object]bool // package scalars read (become parameters)
+	calls     map[string]bool       // Lean names of translated functions called
+	tmp       int
+	inRange   bool           // translating the body of a `for _, v := range` loop: `return e` is `pure (some e)`
+	chk       bool           // the overflow-checked copy: every int / int64 addition, subtraction, multiplication, negation is GoSem.chk64
+	inFold    string         // translating the body of a range loop with state: the state pattern (`continue` / falling off the end is `pure (Flow.next pat)`, `return e` is `pure (Flow.ret e)`)
+	errRes    bool           // the function returns (T, error): the Lean result is `Option T` inside the panic monad, `none` = an error was returned
+	resType   string         // Lean type of the function's result
+	inCallArg bool           // translating an argument of a call: &v is the value v
+	knownNonNil map[types.Object]bool // error variables inside the then-branch of `if err != nil`
+	errOnly   bool           // the function's only result is an error: the Lean result is Bool (true = an error was returned)
+	inout     []types.Object // pointer-to-structure parameters the body writes through: their final values are returned too
 	// local slices this function made itself (`make`), or got from a call: writing to them in place cannot be seen
 	// through another name — for a call result, provided the slices handed to that call are not used afterwards
 	owned    map[types.Object]bool
 	mayAlias map[types.Object][]types.Object
+}
+
+// withInout: a function that writes through pointer parameters returns their final values next to its result
+func (t *fnTrans) withInout(rv string) string {
+	if len(t.inout) == 0 {
+		return rv
+	}
+	parts := []string{rv}
+	for _, o := range t.inout {
+		parts = append(parts, t.nameOf(o))
+	}
+	return "(" + strings.Join(parts, ", ") + ")"
+}
+
+func (t *fnTrans) isInout(o types.Object) bool {
+	for _, p := range t.inout {
+		if p == o {
+			return true
+		}
+	}
+	return false
 }
 
 // usesAny: do the statements mention one of the objects?
@@ -330,8 +375,23 @@ func (t *fnTrans) noteOwner(o types.Object, rhs ast.Expr) {
 	if o == nil {
 		return
 	}
+	if u, ok := rhs.(*ast.UnaryExpr); ok && u.Op == token.AND {
+		rhs = u.X
+	}
+	if _, ok := rhs.(*ast.CompositeLit); ok {
+		t.owned[o] = true // a structure made here
+		return
+	}
 	if _, ok := o.Type().Underlying().(*types.Slice); !ok {
 		return
+	}
+	wasOwned := map[types.Object]bool{}
+	wasAlias := map[types.Object][]types.Object{}
+	for k, v := range t.owned {
+		wasOwned[k] = v
+	}
+	for k, v := range t.mayAlias {
+		wasAlias[k] = v
 	}
 	delete(t.owned, o)
 	delete(t.mayAlias, o)
@@ -341,6 +401,17 @@ func (t *fnTrans) noteOwner(o types.Object, rhs ast.Expr) {
 	}
 	if id, ok := c.Fun.(*ast.Ident); ok && id.Name == "make" {
 		t.owned[o] = true
+		return
+	}
+	if id, ok := c.Fun.(*ast.Ident); ok && id.Name == "append" && len(c.Args) > 0 {
+		// append(x, …): the result is as much this function's own as x was (the appended elements are copied)
+		if first, ok := c.Args[0].(*ast.Ident); ok {
+			fo := t.sp.info.Uses[first]
+			if wasOwned[fo] {
+				t.owned[o] = true
+				t.mayAlias[o] = wasAlias[fo]
+			}
+		}
 		return
 	}
 	var handed []types.Object
@@ -475,8 +546,16 @@ func (t *fnTrans) leanType(ty types.Type) string {
 	if isBool(ty) {
 		return "Bool"
 	}
+	if isErrorType(ty) {
+		return "Bool" // an error value: true = non-nil (the error itself is not modelled)
+	}
 	if isFloat(ty) {
 		return "Rat"
+	}
+	if sl, ok := ty.Underlying().(*types.Slice); ok {
+		if _, inner := sl.Elem().Underlying().(*types.Slice); inner {
+			return "(List " + t.leanType(sl.Elem()) + ")"
+		}
 	}
 	if s, ok := ty.Underlying().(*types.Slice); ok && isInt(s.Elem()) {
 		return "(List Int)"
@@ -492,6 +571,14 @@ func (t *fnTrans) zero(ty types.Type) string {
 		return "0"
 	case isBool(ty):
 		return "false"
+	case isErrorType(ty):
+		return "false"
+	}
+	if _, ok := ty.Underlying().(*types.Slice); ok {
+		return "([] : " + t.leanType(ty) + ")"
+	}
+	if pt, ok := ty.(*types.Pointer); ok {
+		ty = pt.Elem()
 	}
 	if n, ok := ty.(*types.Named); ok {
 		if st, ok := n.Underlying().(*types.Struct); ok {
@@ -505,6 +592,10 @@ func (t *fnTrans) zero(ty types.Type) string {
 	}
 	bail("zero value of %s", ty)
 	return ""
+}
+
+func isErrorType(ty types.Type) bool {
+	return ty != nil && types.Identical(ty, types.Universe.Lookup("error").Type())
 }
 
 // an expression: Lean text, and whether it is effectful (type Option _) or pure
@@ -606,6 +697,11 @@ func (t *fnTrans) expr(e ast.Expr) lexpr {
 			if cl, ok := x.X.(*ast.CompositeLit); ok {
 				return t.expr(cl)
 			}
+			// &v of a local structure handed to a call (the call site checks what the callee does with it)
+			if id, ok := x.X.(*ast.Ident); ok && t.inCallArg {
+				_ = t.leanType(info.Types[id].Type)
+				return t.expr(id)
+			}
 		}
 		bail("unary operator %s", x.Op)
 	case *ast.BinaryExpr:
@@ -640,6 +736,21 @@ func (t *fnTrans) expr(e ast.Expr) lexpr {
 			return lexpr{"(do if " + ls + " then pure " + short + " else " + rs + ")", true}
 		}
 		lt := info.Types[x.X].Type
+		if isErrorType(lt) && (x.Op == token.EQL || x.Op == token.NEQ) {
+			// err != nil / err == nil: an error value is the Boolean "non-nil"
+			var other ast.Expr = x.Y
+			side := x.X
+			if id, ok := x.X.(*ast.Ident); ok && id.Name == "nil" {
+				other, side = x.X, x.Y
+			}
+			if id, ok := other.(*ast.Ident); !ok || id.Name != "nil" {
+				bail("comparison of two error values")
+			}
+			if x.Op == token.NEQ {
+				return lexpr{t.val(side), false}
+			}
+			return lexpr{"(!" + t.val(side) + ")", false}
+		}
 		if isFloat(lt) {
 			a, b := t.val(x.X), t.val(x.Y)
 			switch x.Op {
@@ -750,15 +861,21 @@ func (t *fnTrans) expr(e ast.Expr) lexpr {
 			bail("composite literal of %s", tv.Type)
 		}
 		var parts []string
+		given := map[string]bool{}
 		for i, el := range x.Elts {
 			if kv, ok := el.(*ast.KeyValueExpr); ok {
 				parts = append(parts, kv.Key.(*ast.Ident).Name+" := "+t.val(kv.Value))
+				given[kv.Key.(*ast.Ident).Name] = true
 			} else {
 				parts = append(parts, st.Field(i).Name()+" := "+t.val(el))
+				given[st.Field(i).Name()] = true
 			}
 		}
-		if len(parts) != st.NumFields() {
-			bail("composite literal of %s with omitted fields", tv.Type)
+		// omitted fields of a keyed literal hold their zero values
+		for i := 0; i < st.NumFields(); i++ {
+			if !given[st.Field(i).Name()] {
+				parts = append(parts, st.Field(i).Name()+" := "+t.zero(st.Field(i).Type()))
+			}
 		}
 		return lexpr{"({ " + strings.Join(parts, ", ") + " } : " + lt + ")", false}
 	case *ast.CallExpr:
@@ -780,6 +897,10 @@ func (t *fnTrans) expr(e ast.Expr) lexpr {
 			if _, isB := info.Uses[id].(*types.Builtin); isB {
 				switch id.Name {
 				case "append":
+					if len(x.Args) == 2 && x.Ellipsis.IsValid() {
+						_ = t.leanType(tv.Type)
+						return lexpr{"(" + t.val(x.Args[0]) + " ++ " + t.val(x.Args[1]) + ")", false}
+					}
 					if len(x.Args) != 2 || x.Ellipsis.IsValid() {
 						bail("append with other than one element")
 					}
@@ -860,9 +981,24 @@ func (t *fnTrans) expr(e ast.Expr) lexpr {
 				}
 			}
 		}
-		for _, a := range x.Args {
+		t.inCallArg = true
+		nfixed := sig.Params().Len()
+		if sig.Variadic() && !x.Ellipsis.IsValid() {
+			nfixed--
+		}
+		var spread []string
+		for i, a := range x.Args {
+			if sig.Variadic() && !x.Ellipsis.IsValid() && i >= nfixed {
+				spread = append(spread, t.val(a))
+				continue
+			}
 			args = append(args, t.val(a))
 		}
+		if sig.Variadic() && !x.Ellipsis.IsValid() {
+			// f(a, b) for f(xs ...T): the compiler makes the slice
+			args = append(args, "["+strings.Join(spread, ", ")+"]")
+		}
+		t.inCallArg = false
 		if ext, ok := srcExternals[qual]; ok {
 			return lexpr{"(" + ext + " " + strings.Join(args, " ") + ")", true}
 		}
@@ -907,9 +1043,19 @@ func (t *fnTrans) assigned(stmts []ast.Stmt, declaredInside map[types.Object]boo
 	walk = func(s ast.Stmt) {
 		switch x := s.(type) {
 		case *ast.AssignStmt:
+			for _, r := range x.Rhs {
+				for _, o := range t.inoutArgs(r) {
+					if !declaredInside[o] {
+						out[o] = true
+					}
+				}
+			}
 			for _, l := range x.Lhs {
 				if ix, ok := l.(*ast.IndexExpr); ok {
 					l = ix.X // xs[i] = v rebinds xs in the translation
+				}
+				if se, ok := l.(*ast.SelectorExpr); ok {
+					l = se.X // v.f = e rebinds the structure v
 				}
 				id, ok := l.(*ast.Ident)
 				if !ok {
@@ -928,6 +1074,11 @@ func (t *fnTrans) assigned(stmts []ast.Stmt, declaredInside map[types.Object]boo
 				}
 			}
 		case *ast.ExprStmt:
+			for _, o := range t.inoutArgs(x.X) {
+				if !declaredInside[o] {
+					out[o] = true
+				}
+			}
 			// an in-place operation (srcMutExternals) rebinds its receiver
 			if c, ok := x.X.(*ast.CallExpr); ok {
 				if se, ok := c.Fun.(*ast.SelectorExpr); ok {
@@ -1056,6 +1207,24 @@ func (t *fnTrans) stmts(list []ast.Stmt, k string, depth int, nres int) string {
 			}
 			return ind(depth) + "pure (some " + t.val(x.Results[0]) + ")\n"
 		}
+		if t.errOnly {
+			if len(x.Results) != 1 {
+				bail("return shape in a function whose only result is an error")
+			}
+			rv := "true"
+			if id, ok := x.Results[0].(*ast.Ident); ok && id.Name == "nil" {
+				rv = "false"
+			} else if id, ok := x.Results[0].(*ast.Ident); ok && isErrorType(info.Types[id].Type) {
+				rv = t.val(id)
+			} else if c, ok := x.Results[0].(*ast.CallExpr); !ok || !isErrorCtor(info, c) {
+				bail("error result that is neither nil nor a fresh error")
+			}
+			rv = t.withInout(rv)
+			if t.inFold != "" {
+				return ind(depth) + "pure (GoSem.Flow.ret " + rv + ")\n"
+			}
+			return ind(depth) + "pure " + rv + "\n"
+		}
 		if t.errRes {
 			// (T, error): `return v, nil` is `some v`, `return _, err` is `none` (the error value itself is not modelled)
 			if len(x.Results) == 1 {
@@ -1074,8 +1243,25 @@ func (t *fnTrans) stmts(list []ast.Stmt, k string, depth int, nres int) string {
 				bail("return shape in a function with an error result")
 			}
 			rv := "none"
+			if len(t.inout) > 0 {
+				bail("a function that writes through a pointer parameter and returns (T, error)")
+			}
 			if id, ok := x.Results[1].(*ast.Ident); ok && id.Name == "nil" {
 				rv = "(some " + t.val(x.Results[0]) + ")"
+			} else if id, ok := x.Results[1].(*ast.Ident); ok && isErrorType(info.Types[id].Type) {
+				// return v, err with an error variable: an error iff it is non-nil
+				first := "none"
+				if fid, ok := x.Results[0].(*ast.Ident); !ok || fid.Name != "nil" {
+					first = "(some " + t.val(x.Results[0]) + ")"
+				}
+				rv = "(if " + t.val(id) + " then none else " + first + ")"
+				if first == "none" {
+					// `return nil, err`: with err == nil Go returns (nil, nil); the translation has no value for that
+					rv = "none"
+					if !t.knownNonNil[info.Uses[id]] {
+						bail("return nil, err where err is not known to be non-nil")
+					}
+				}
 			} else if c, ok := x.Results[1].(*ast.CallExpr); !ok || !isErrorCtor(info, c) {
 				bail("error result that is neither nil nor a fresh error")
 			}
@@ -1110,6 +1296,62 @@ func (t *fnTrans) stmts(list []ast.Stmt, k string, depth int, nres int) string {
 	case *ast.AssignStmt:
 		switch x.Tok {
 		case token.DEFINE, token.ASSIGN:
+			// v.f = e  /  v.f[i] = e on a local structure (or an in-out parameter): the structure is rebound
+			if len(x.Lhs) == 1 && len(x.Rhs) == 1 && x.Tok == token.ASSIGN {
+				l := x.Lhs[0]
+				var index ast.Expr
+				if ix, ok := l.(*ast.IndexExpr); ok {
+					if _, isSel := ix.X.(*ast.SelectorExpr); isSel {
+						l, index = ix.X, ix.Index
+					}
+				}
+				if se, ok := l.(*ast.SelectorExpr); ok {
+					sel, isField := info.Selections[se]
+					rid, isId := se.X.(*ast.Ident)
+					if !isField || sel.Kind() != types.FieldVal || !isId {
+						bail("assignment to a field of something that is not a local structure")
+					}
+					ro := info.Uses[rid]
+					if !t.owned[ro] && !t.isInout(ro) {
+						bail("assignment to a field of a structure the function neither made nor was handed for writing")
+					}
+					rn := t.nameOf(ro)
+					fld := sel.Obj().Name()
+					v := t.val(x.Rhs[0])
+					if index != nil {
+						v = "(← GoSem.setA (" + rn + ")." + fld + " " + t.val(index) + " " + v + ")"
+					}
+					return ind(depth) + "let " + rn + " := { " + rn + " with " + fld + " := " + v + " }\n" + t.stmts(rest, k, depth, nres)
+				}
+			}
+			// x, err = f(...) of a translated (T, error) function: err is the Boolean "an error was returned"
+			if len(x.Lhs) == 2 && len(x.Rhs) == 1 && isErrorType(info.Types[x.Lhs[1]].Type) {
+				if c, ok := x.Rhs[0].(*ast.CallExpr); ok {
+					if tup, ok := info.Types[c].Type.(*types.Tuple); ok && tup.Len() == 2 && len(t.inoutArgs(c)) == 0 {
+						r := t.expr(c)
+						t.tmp++
+						tn := fmt.Sprintf("_t%d", t.tmp)
+						vn, en := t.nameOf(lhsObj(x.Lhs[0])), t.nameOf(lhsObj(x.Lhs[1]))
+						out := ind(depth) + "let " + tn + " ← " + r.s + "\n"
+						out += ind(depth) + "let (" + vn + ", " + en + ") := (match " + tn + " with | some _v => (_v, false) | none => (" + t.zero(tup.At(0).Type()) + ", true))\n"
+						return out + t.stmts(rest, k, depth, nres)
+					}
+				}
+			}
+			// r := f(p, &q) where f writes through some of its pointer parameters: those arguments are rebound
+			if len(x.Lhs) == 1 && len(x.Rhs) == 1 {
+				if io := t.inoutArgs(x.Rhs[0]); len(io) > 0 {
+					r := t.expr(x.Rhs[0])
+					ns := []string{t.nameOf(lhsObj(x.Lhs[0]))}
+					for _, o := range io {
+						if !t.owned[o] && !t.isInout(o) {
+							bail("a structure the function neither made nor was handed for writing is passed on for writing")
+						}
+						ns = append(ns, t.nameOf(o))
+					}
+					return ind(depth) + "let (" + strings.Join(ns, ", ") + ") ← " + r.s + "\n" + t.stmts(rest, k, depth, nres)
+				}
+			}
 			if len(x.Lhs) == len(x.Rhs) {
 				if len(x.Lhs) > 1 {
 					// parallel assignment: evaluate all right-hand sides first
@@ -1216,12 +1458,7 @@ func (t *fnTrans) stmts(list []ast.Stmt, k string, depth int, nres int) string {
 					out += bindOne(o, vs.Values[i], o.Type())
 					continue
 				}
-				zero := "0"
-				if isBool(o.Type()) {
-					zero = "false"
-				} else if !isInt(o.Type()) {
-					bail("zero value of %s", o.Type())
-				}
+				zero := t.zero(o.Type())
 				out += ind(depth) + "let " + t.nameOf(o) + " := " + typedLit(zero) + "\n"
 			}
 		}
@@ -1236,6 +1473,17 @@ func (t *fnTrans) stmts(list []ast.Stmt, k string, depth int, nres int) string {
 					}
 				}
 			}
+		}
+		if io := t.inoutArgs(x.X); len(io) > 0 {
+			r := t.expr(x.X)
+			ns := []string{"_"}
+			for _, o := range io {
+				if !t.owned[o] && !t.isInout(o) {
+					bail("a structure the function neither made nor was handed for writing is passed on for writing")
+				}
+				ns = append(ns, t.nameOf(o))
+			}
+			return ind(depth) + "let (" + strings.Join(ns, ", ") + ") ← " + r.s + "\n" + t.stmts(rest, k, depth, nres)
 		}
 		if c, ok := x.X.(*ast.CallExpr); ok {
 			if se, ok := c.Fun.(*ast.SelectorExpr); ok {
@@ -1318,7 +1566,21 @@ func (t *fnTrans) stmts(list []ast.Stmt, k string, depth int, nres int) string {
 				return out + t.stmts(rest, k, depth, nres)
 			}
 		}
+		var nn types.Object
+		if be, ok := x.Cond.(*ast.BinaryExpr); ok && be.Op == token.NEQ {
+			if id, ok := be.X.(*ast.Ident); ok && isErrorType(info.Types[id].Type) {
+				if y, ok := be.Y.(*ast.Ident); ok && y.Name == "nil" {
+					nn = info.Uses[id]
+				}
+			}
+		}
+		if nn != nil {
+			t.knownNonNil[nn] = true
+		}
 		thenS := t.stmts(append(append([]ast.Stmt{}, x.Body.List...), rest...), k, depth+1, nres)
+		if nn != nil {
+			delete(t.knownNonNil, nn)
+		}
 		elseS := t.stmts(append(elseList, rest...), k, depth+1, nres)
 		return out + ind(depth) + "if " + cs + " then\n" + thenS + ind(depth) + "else\n" + elseS
 	case *ast.RangeStmt:
@@ -1421,7 +1683,15 @@ func (t *fnTrans) stmts(list []ast.Stmt, k string, depth int, nres int) string {
 func (t *fnTrans) foldLoop(x *ast.RangeStmt, rest []ast.Stmt, k string, depth int, nres int) (string, bool) {
 	info := t.sp.info
 	set := map[types.Object]bool{}
-	t.assigned(x.Body.List, map[types.Object]bool{}, set)
+	inside := map[types.Object]bool{}
+	for _, e := range []ast.Expr{x.Key, x.Value} {
+		if id, ok := e.(*ast.Ident); ok && x.Tok == token.DEFINE {
+			if d := info.Defs[id]; d != nil {
+				inside[d] = true
+			}
+		}
+	}
+	t.assigned(x.Body.List, inside, set)
 	usesKey := false
 	if id, ok := x.Key.(*ast.Ident); ok && id.Name != "_" {
 		usesKey = true
@@ -1453,8 +1723,34 @@ func (t *fnTrans) foldLoop(x *ast.RangeStmt, rest []ast.Stmt, k string, depth in
 	_ = t.leanType(xt)
 	// the ranged slice is evaluated once; the body must not write to it
 	if id, ok := x.X.(*ast.Ident); ok {
-		if set[info.Uses[id]] {
-			bail("range loop that assigns the slice it ranges over")
+		if ro := info.Uses[id]; set[ro] {
+			// allowed: xs[i] = e with i the loop's own index (the iteration has already read that element and
+			// no later one reads it)
+			kid, _ := x.Key.(*ast.Ident)
+			okForm := kid != nil && kid.Name != "_"
+			ast.Inspect(x.Body, func(n ast.Node) bool {
+				as, isAs := n.(*ast.AssignStmt)
+				if !isAs {
+					return true
+				}
+				for _, l := range as.Lhs {
+					if lid, isId := l.(*ast.Ident); isId && info.Uses[lid] == ro {
+						okForm = false
+					}
+					if ix, isIx := l.(*ast.IndexExpr); isIx {
+						if xid, isId := ix.X.(*ast.Ident); isId && info.Uses[xid] == ro {
+							iid, isId := ix.Index.(*ast.Ident)
+							if !isId || kid == nil || info.Uses[iid] != info.Defs[kid] {
+								okForm = false
+							}
+						}
+					}
+				}
+				return true
+			})
+			if !okForm {
+				bail("range loop that assigns the slice it ranges over")
+			}
 		}
 	}
 	var objs []types.Object
@@ -1608,6 +1904,94 @@ func (t *fnTrans) countLoop(x *ast.ForStmt, rest []ast.Stmt, k string, depth int
 	return out + t.stmts(rest, k, depth+1, nres), true
 }
 
+// inoutOf: the indices of the parameters of a function declaration that are pointers to one of the package's own
+// structures AND are written through in the body (a field assigned, an element of a field assigned): in the
+// translation such a parameter is a value that the function returns, updated, next to its results
+func inoutOf(sp *srcPkg, fd *ast.FuncDecl) []int {
+	var res []int
+	idx := 0
+	for _, f := range fd.Type.Params.List {
+		ty := sp.info.Types[f.Type].Type
+		for _, id := range f.Names {
+			if pt, ok := ty.(*types.Pointer); ok {
+				if n, ok := pt.Elem().(*types.Named); ok {
+					if _, isSt := n.Underlying().(*types.Struct); isSt && n.Obj().Pkg() == sp.pkg {
+						obj := sp.info.Defs[id]
+						written := false
+						ast.Inspect(fd.Body, func(nd ast.Node) bool {
+							as, ok := nd.(*ast.AssignStmt)
+							if !ok {
+								return true
+							}
+							for _, l := range as.Lhs {
+								if ix, ok := l.(*ast.IndexExpr); ok {
+									l = ix.X
+								}
+								if se, ok := l.(*ast.SelectorExpr); ok {
+									if rid, ok := se.X.(*ast.Ident); ok && sp.info.Uses[rid] == obj {
+										written = true
+									}
+								}
+							}
+							return true
+						})
+						if written {
+							res = append(res, idx)
+						}
+					}
+				}
+			}
+			idx++
+		}
+	}
+	return res
+}
+
+// calleeDecl: the declaration of a translated package-level function called by name
+func (t *fnTrans) calleeDecl(c *ast.CallExpr) (*srcPkg, *ast.FuncDecl) {
+	id, ok := c.Fun.(*ast.Ident)
+	if !ok {
+		return nil, nil
+	}
+	fn, ok := t.sp.info.Uses[id].(*types.Func)
+	if !ok || fn.Pkg() == nil {
+		return nil, nil
+	}
+	tp := t.all[fn.Pkg().Path()]
+	if tp == nil {
+		return nil, nil
+	}
+	return tp, tp.decls[fn.Name()]
+}
+
+// inoutArgs: the local variables a call rebinds (arguments in the in-out positions of the callee)
+func (t *fnTrans) inoutArgs(e ast.Expr) []types.Object {
+	c, ok := e.(*ast.CallExpr)
+	if !ok {
+		return nil
+	}
+	tp, fd := t.calleeDecl(c)
+	if fd == nil {
+		return nil
+	}
+	var out []types.Object
+	for _, i := range inoutOf(tp, fd) {
+		if i >= len(c.Args) {
+			continue
+		}
+		a := c.Args[i]
+		if u, ok := a.(*ast.UnaryExpr); ok && u.Op == token.AND {
+			a = u.X
+		}
+		id, ok := a.(*ast.Ident)
+		if !ok {
+			bail("in-out argument that is not a variable")
+		}
+		out = append(out, t.sp.info.Uses[id])
+	}
+	return out
+}
+
 func isErrorCtor(info *types.Info, c *ast.CallExpr) bool {
 	se, ok := c.Fun.(*ast.SelectorExpr)
 	if !ok {
@@ -1674,7 +2058,7 @@ func translateFunc(sp *srcPkg, all map[string]*srcPkg, name string, chk bool) (d
 		}
 	}()
 	t := &fnTrans{sp: sp, all: all, names: map[types.Object]string{}, used: map[string]int{}, globals: map[types.Object]bool{}, calls: map[string]bool{}, chk: chk,
-		owned: map[types.Object]bool{}, mayAlias: map[types.Object][]types.Object{}}
+		owned: map[types.Object]bool{}, mayAlias: map[types.Object][]types.Object{}, knownNonNil: map[types.Object]bool{}}
 	var params []string
 	if fd.Recv != nil && len(fd.Recv.List) == 1 {
 		r := fd.Recv.List[0]
@@ -1690,11 +2074,26 @@ func translateFunc(sp *srcPkg, all map[string]*srcPkg, name string, chk bool) (d
 			}
 		}
 	}
+	ioIdx := map[int]bool{}
+	for _, i := range inoutOf(sp, fd) {
+		ioIdx[i] = true
+	}
+	pidx := 0
 	for _, f := range fd.Type.Params.List {
 		ty := sp.info.Types[f.Type].Type
 		lt := t.leanType(ty)
+		_, variadic := f.Type.(*ast.Ellipsis)
 		for _, id := range f.Names {
 			params = append(params, "("+t.nameOf(sp.info.Defs[id])+" : "+lt+")")
+			if variadic {
+				// f(a, b) hands the function a slice nobody else holds; a caller that spreads its own slice
+				// (f(xs...)) would see the writes — not modelled
+				t.owned[sp.info.Defs[id]] = true
+			}
+			if ioIdx[pidx] {
+				t.inout = append(t.inout, sp.info.Defs[id])
+			}
+			pidx++
 		}
 	}
 	if fd.Type.Results == nil {
@@ -1707,6 +2106,11 @@ func translateFunc(sp *srcPkg, all map[string]*srcPkg, name string, chk bool) (d
 		}
 		rty := sp.info.Types[f.Type].Type
 		if types.Identical(rty, types.Universe.Lookup("error").Type()) {
+			if len(fd.Type.Results.List) == 1 {
+				t.errOnly = true
+				rts = append(rts, "Bool")
+				continue
+			}
 			if len(fd.Type.Results.List) != 2 || len(rts) != 1 {
 				bail("error result in an unsupported position")
 			}
@@ -1721,6 +2125,13 @@ func translateFunc(sp *srcPkg, all map[string]*srcPkg, name string, chk bool) (d
 	}
 	if t.errRes {
 		rt = "(Option " + rt + ")"
+	}
+	if len(t.inout) > 0 {
+		parts := []string{rt}
+		for _, o := range t.inout {
+			parts = append(parts, t.leanType(o.Type()))
+		}
+		rt = "(" + strings.Join(parts, " × ") + ")"
 	}
 	t.resType = rt
 	body := t.stmts(fd.Body.List, "", 1, len(rts))
